@@ -332,6 +332,9 @@ def dense_tags(op: str, shape: Sequence[int], key, rhs=None) -> List[str]:
     """op: 'read' | 'write'."""
     tags = []
     if key["f"] != "tuple":
+        if (op == "write" and rhs is not None and rhs["r"] == "vec" and rhs.get("as") == "list"
+                and len(positions(shape, key)) == 1):
+            tags.append("single-row-list")
         return tags
     if long_lists(key) >= 2 or (n_lists(key) >= 2 and op == "write" and rhs is not None and rhs["r"] == "array"):
         tags.append("lists-paired")
@@ -392,8 +395,9 @@ def sparse_tags(op: str, shape: Sequence[int], key, rhs, stored_subs: np.ndarray
         zeros = [v == 0 for v in vals]
         if any(zeros) and not all(zeros):
             tags.append("mixed-batch")
-        elif all(zeros) and nstored > 0 and M == len(shape):
-            stored = {tuple(int(x) for x in r): i for i, r in enumerate(np.asarray(stored_subs))}
+        elif all(zeros) and nstored > 0:
+            pad = (0,) * (M - len(shape))  # where the stored rows belong once the order has grown
+            stored = {tuple(int(x) for x in r) + pad: i for i, r in enumerate(np.asarray(stored_subs))}
             where = [stored.get(r) for r in rows]
             hit = [w for w in where if w is not None]
             if hit and not (len(hit) == len(rows) and sorted(hit) == list(range(len(rows)))):
